@@ -25,6 +25,7 @@ class World:
         self.result_segments = None  # what iterating a computed path yields: list[(verb, points)]
         self.area = 0.0
         self.bounds = (0.0, 0.0, 0.0, 0.0)
+        self.computed_paths_are_empty = False  # what len()/bool() of a computed path reports (an empty region is a legal result)
 
 
 class FakePath:
@@ -90,6 +91,17 @@ class FakePath:
     def bounds(self):
         self.world.events.append(("bounds", self))
         return self.world.bounds
+
+    def __len__(self):
+        if self.term is not None:
+            return 0 if self.world.computed_paths_are_empty else 3
+        return len(self.calls)
+
+    def __pyvc_truth__(self, interp):
+        return len(self) > 0
+
+    def __pyvc_len__(self, interp):
+        return len(self)
 
     def __pyvc_iter__(self, interp):
         return iter(self._segments())
